@@ -33,12 +33,12 @@ ASSUMPTIONS = [
     "_create_odesys parameter_expressions are modelled for string-named rate constants only",
 ]
 
-QUICK = ["cfg_q", "sys_q", "full_q"]
-THOROUGH = ["cfg_t", "comp_t", "sys_t", "sys3_t", "full_t", "orders_t"]
+QUICK = ["cfg_q", "sys_q", "full_q", "const_q", "sym_q"]
+THOROUGH = ["cfg_t", "comp_t", "sys_t", "sys3_t", "full_t", "orders_t", "const_t", "constw_t", "sym_t"]
 # coverage (vacuity guard) is read on the smallest slice; it takes all four actions
 ACTIONS = {"full_q": ["OAdd", "OState", "OFeed", "GenBuild"], "full_t": ["OAdd", "OState", "OFeed", "GenBuild"]}
 
-FIELDS = ["names", "params", "poly", "f", "rvals", "B"]
+FIELDS = ["names", "dep", "params", "poly", "f", "rvals", "B"]
 
 
 def _want(exp, field):
@@ -52,7 +52,9 @@ def _want(exp, field):
 def _key(cin, field, error, cls):
     cfg = cin["cfg"]
     return dict(fn=cfg["builder"], field=field, error=error, incl=cfg["incl"], cstr=cfg["cstr"],
-                kinds=",".join(cfg["kinds"]), subs=",".join(cfg["subs"]), comp=cfg["comp"], cls=cls)
+                kinds=",".join(cfg["kinds"]), subs=",".join(cfg["subs"]), comp=cfg["comp"], cls=cls,
+                gsub=cfg.get("gsub", "none"), fsub=cfg.get("fsub", "none"),
+                consts=",".join(cfg.get("consts", [])), symorder=",".join(cfg.get("symorder", [])))
 
 
 def replay_case(case):
@@ -93,6 +95,7 @@ def _run_trace(arg):
     bind = {kc.kname(i + 1): r["kv"] for i, r in enumerate(sysd["rxns"])}
     bind["T"] = cfg["tval"]
     bind["a1"] = cfg["aval"]
+    bind["g"] = cfg["gval"]
     if sysd["feed"]:
         bind[kc.FEEDVAR] = sysd["feed"]["F"]
         for s in sysd["subst"]:
@@ -102,7 +105,7 @@ def _run_trace(arg):
     ev = kc.system_events(sysd)
     ev.append({"ev": "Build", "cfg": cin["cfg"]})
     if kc.is_raise(obs["build"]):
-        res = {"ev": "Result", "built": False, "names": [], "params": [], "poly": [], "f": [], "rvals": [], "hasr": False}
+        res = {"ev": "Result", "built": False, "names": [], "dep": [], "params": [], "poly": [], "f": [], "rvals": [], "hasr": False}
     else:
         for k in ("poly", "f"):
             if obs[k] is None or isinstance(obs[k], dict):
@@ -112,7 +115,7 @@ def _run_trace(arg):
             if "rvals" in obs:
                 return None, obs, cin
             rv = []
-        res = {"ev": "Result", "built": True, "names": obs["names"], "params": obs["params"],
+        res = {"ev": "Result", "built": True, "names": obs["names"], "dep": obs.get("dep", []), "params": obs["params"],
                "poly": obs["poly"], "f": obs["f"], "rvals": rv, "hasr": "rvals" in obs}
     return ev + [res], obs, cin
 
@@ -130,7 +133,8 @@ def _trace_direction(ctx, n):
         sysd["subst"] = [s for s in sysd["subst"] if s in used]
         if sysd["feed"]:
             sysd["feed"]["cf"] = {s: sysd["feed"]["cf"][s] for s in sysd["subst"]}
-        items.append((sysd, kc.gen_build_config(ctx.rng, len(sysd["rxns"]))))
+        items.append((sysd, kc.gen_build_config(ctx.rng, len(sysd["rxns"]), substs=sysd["subst"],
+                                                feed=bool(sysd["feed"]))))
     outs = ctx.pmap(_run_trace, items)
     traces, meta = [], []
     for (sysd, cfg), (tr, obs, cin) in zip(items, outs):
@@ -190,8 +194,9 @@ def _warm_up():
     cin = {"subst": ["A", "B"], "rxns": [{"reac": [["A", 1]], "prod": [["B", 1]], "ireac": [], "iprod": [],
                                             "k": 1, "kv": [11, 1]}],
            "c": [[2, 1], [3, 1]], "feed": {"on": False, "F": [0, 1], "cf": []}, "comp": [], "bind": [],
-           "cfg": {"builder": "get_odesys", "incl": True, "kinds": ["num"], "subs": ["none"], "cstr": False,
-                   "comp": False, "subvals": [[41, 1]], "aval": [53, 1], "tval": [59, 1]}}
+           "cfg": dict({"builder": "get_odesys", "incl": True, "kinds": ["num"], "subs": ["none"], "cstr": False,
+                        "comp": False, "subvals": [[41, 1]], "aval": [53, 1], "tval": [59, 1]},
+                       **kc.default_pk_fields())}
     kc.observe_odesys(cin)
     cin["cfg"] = dict(cin["cfg"], builder="create_odesys", incl=False, kinds=["str"])
     cin["bind"] = [["k1", [11, 1]]]
